@@ -271,9 +271,11 @@ func (m *pmodel) step(op Op, performed *bool) bool {
 		if d := m.rowDepth(b); d > m.maxDepth {
 			m.maxDepth = d
 		}
-		for _, c := range m.sortedMem() { // depth of what hangs below b
-			if d := m.rowDepth(c); d > m.maxDepth {
-				m.maxDepth = d
+		if len(m.mem) <= 64 { // depth of what hangs below b (a label only; not followed in large universes)
+			for _, c := range m.sortedMem() {
+				if d := m.rowDepth(c); d > m.maxDepth {
+					m.maxDepth = d
+				}
 			}
 		}
 	case "disconnect":
@@ -348,7 +350,7 @@ func (m *pmodel) step(op Op, performed *bool) bool {
 }
 
 func hasRestartX(h History) bool {
-	for _, op := range h.Ops {
+	for _, op := range h.Ops { // (bulk operations expand to registrations, connects, marks and listener adds only)
 		if op.K == "restartx" {
 			return true
 		}
@@ -361,8 +363,8 @@ func pivotLabels(h History) (labels []string, bucket string) {
 	if !hasRestartX(h) {
 		return nil, ""
 	}
-	m := newPModel(len(h.Agents))
-	for _, op := range h.Ops {
+	m := newPModel(h.nAgents())
+	for _, op := range h.flat() {
 		m.step(op, nil)
 	}
 	labels = append(labels, "pivot-trees-with-restarts-at-any-point")
@@ -372,7 +374,11 @@ func pivotLabels(h History) (labels []string, bucket string) {
 	if m.forced > 1 {
 		labels = append(labels, "restarts-at-any-point:2+")
 	}
-	labels = append(labels, fmt.Sprintf("pivot-depth:%d", m.maxDepth))
+	if m.maxDepth <= 5 {
+		labels = append(labels, fmt.Sprintf("pivot-depth:%d", m.maxDepth))
+	} else {
+		labels = append(labels, "pivot-depth:6+")
+	}
 	sort.Strings(labels)
 	switch {
 	case m.lab["restart-after-reconnect-of-agent-whose-stored-parent-was-not-in-memory"]:
@@ -399,20 +405,21 @@ type sessView struct {
 	Links  []string
 }
 
-func hexID(h History, i int) string { return fmt.Sprintf("%08x", h.Agents[i].ID) }
+func hexID(h History, i int) string { return fmt.Sprintf("%08x", h.spec(i).ID) }
 
 // wantView: the model's sessions as id -> parent / children.
 func wantView(h History, mem map[int]*pmAgent) map[string]sessView {
 	out := map[string]sessView{}
+	kids := map[int][]string{}
+	for _, c := range sortedKeys(mem) {
+		if p := mem[c].parent; p >= 0 {
+			kids[p] = append(kids[p], hexID(h, c))
+		}
+	}
 	for _, i := range sortedKeys(mem) {
-		v := sessView{}
+		v := sessView{Links: kids[i]}
 		if p := mem[i].parent; p >= 0 {
 			v.Parent = hexID(h, p)
-		}
-		for _, c := range sortedKeys(mem) {
-			if mem[c].parent == i {
-				v.Links = append(v.Links, hexID(h, c))
-			}
 		}
 		sort.Strings(v.Links)
 		out[hexID(h, i)] = v
